@@ -116,6 +116,7 @@ namespace hs
         void op_destroy(int which);
         void op_destroy_husk(long long k);
         void op_over(const sim::Op& op);
+        void op_newhandler(const sim::Op& op);
         void op_mark_cap(int which);
         void op_check_cap(int which);
         void op_cycle(const sim::Op& op);
